@@ -712,6 +712,8 @@ def expr_purity(name, spec):
         res["outside"].append(f"{name}: rejected by FFCx with {e}")
     except uflref.OracleUnsupported as e:
         res["outside"].append(f"{name}: {e}")
+    except RecursionError:
+        res["outside"].append(f"{name}: expression too deep for the recursive evaluators (RecursionError) - not analysed")
     except KsymError as e:
         res["harness"].append(f"{name}: ksym: {e}")
     except Exception as e:
